@@ -6,9 +6,7 @@ import (
 	"fmt"
 	"io"
 
-	"golang.org/x/net/html"
-
-	"github.com/titpetric/vuego/internal/helpers"
+	"github.com/titpetric/vuego/internal/parser"
 )
 
 // Render processes the loaded template and writes the output to w.
@@ -89,9 +87,13 @@ func (t *template) RenderReader(ctx context.Context, w io.Writer, r io.Reader) e
 		return err
 	}
 
-	// Parse the template from reader as a fragment
-	body := helpers.GetBodyNode()
-	dom, err := html.ParseFragment(r, body)
+	// Parse the template like a template file: a full document keeps its
+	// doctype, <html>, <head> and <body>, anything else is a fragment
+	templateBytes, err := io.ReadAll(r)
+	if err != nil {
+		return fmt.Errorf("error reading template: %w", err)
+	}
+	dom, err := parser.ParseTemplateBytes(templateBytes)
 	if err != nil {
 		return fmt.Errorf("error parsing template: %w", err)
 	}
